@@ -40,7 +40,7 @@ var dims = map[string]int{
 	"circle": 2, "box2": 2, "line2": 2, "poly": 2,
 	// 2D special leaves (profiles)
 	"flatflankcam": 2, "threearccam": 2, "flange1": 2, "gearrack": 2, "arcspiral": 2,
-	"isothread": 2, "acmethread": 2, "ansibuttress": 2, "plasticbuttress": 2, "text": 2,
+	"isothread": 2, "acmethread": 2, "ansibuttress": 2, "plasticbuttress": 2, "text": 2, "bezier": 2,
 	// 2D combinators
 	"union2": 2, "diff2": 2, "isect2": 2, "cut2": 2, "xform2": 2, "scale2": 2, "nuscale2": 2,
 	"offset2": 2, "elong2": 2, "array2": 2, "rotcopy2": 2, "rotunion2": 2, "slice2": 2,
